@@ -490,4 +490,708 @@ theorem pres_submitStep {p : Params} {s : St} {t : Nat} {r : St × Bool} (h : SI
           by simp [fRej, Phase.isRej], by simp [fRs, Phase.started], by simp [fRe, Phase.ended], rfl, rfl, rfl⟩
 
 
+
+theorem Pres.trans {p : Params} {s s1 s2 : St} (a : Pres p s s1) (b : Pres p s1 s2) : Pres p s s2 :=
+  ⟨b.inv, b.openEq.trans a.openEq, Nat.le_trans a.sdmono b.sdmono⟩
+
+theorem idsIn_mem (ph : Phase) (l : List Task) (k t : Nat) (h : t ∈ idsIn ph l k) :
+    k ≤ t ∧ ∃ x, l[t - k]? = some x ∧ x.phase = ph := by
+  induction l generalizing k with
+  | nil => simp [idsIn] at h
+  | cons a as ih =>
+    simp only [idsIn] at h
+    by_cases ha : a.phase = ph
+    · simp only [ha, if_true, List.mem_cons] at h
+      rcases h with h | h
+      · subst h; exact ⟨Nat.le_refl _, a, by simp, ha⟩
+      · obtain ⟨h1, x, h2, h3⟩ := ih (k + 1) h
+        refine ⟨by omega, x, ?_, h3⟩
+        have : t - k = (t - (k + 1)) + 1 := by omega
+        rw [this]; simpa using h2
+    · simp only [ha, if_false] at h
+      obtain ⟨h1, x, h2, h3⟩ := ih (k + 1) h
+      refine ⟨by omega, x, ?_, h3⟩
+      have : t - k = (t - (k + 1)) + 1 := by omega
+      rw [this]; simpa using h2
+
+theorem queued_get {s : St} {t : Nat} (h : t ∈ queuedIds s) : ∃ r k, s.tasks[t]? = some ⟨.queued, r, k⟩ := by
+  obtain ⟨_, x, h2, h3⟩ := idsIn_mem _ _ _ _ h
+  obtain ⟨ph, r, k⟩ := x
+  simp at h3; subst h3
+  exact ⟨r, k, by simpa using h2⟩
+
+theorem chan_get {s : St} {t : Nat} (h : t ∈ chanIds s) : ∃ r k, s.tasks[t]? = some ⟨.inchan, r, k⟩ := by
+  obtain ⟨_, x, h2, h3⟩ := idsIn_mem _ _ _ _ h
+  obtain ⟨ph, r, k⟩ := x
+  simp at h3; subst h3
+  exact ⟨r, k, by simpa using h2⟩
+
+/-- A phase change that the monitor does not see. -/
+theorem pres_silent {p : Params} {s : St} {t : Nat} {ph ph' : Phase} {r : Bool} {k : List Body} (h : SInv p s)
+    (ht : s.tasks[t]? = some ⟨ph, r, k⟩)
+    (h0 : ph'.isRej = ph.isRej) (h1 : ph'.started = ph.started) (h2 : ph'.ended = ph.ended) (h3 : ph'.upd = ph.upd)
+    (h4 : ph'.dnd = ph.dnd) (h5 : ph'.pending = ph.pending) (h6 : ph'.canc = true → ph.canc = true ∨ (p.cancel = true ∧ 0 < s.sdcalls)) :
+    Pres p s (setPhase s t ph') := by
+  rw [setPhase_eq ht]
+  refine sinv_task_update (y := ⟨ph', r, k⟩) h ht rfl rfl rfl rfl rfl rfl rfl (by simp [fPend, h5]) (by simpa [fCanc] using h6) ?_
+  intro m hm R
+  exact ⟨m, hm, monUpd_same ⟨ph', r, k⟩ R.tasks ht (by simp [absT, h0, h1, h2]) (by simp [fUp, h3]) (by simp [fDn, h4])
+    (by simp [fRej, h0]) (by simp [fRs, h1]) (by simp [fRe, h2]) _ R.ctr⟩
+
+theorem pres_popOrCond {p : Params} {s s' : St} (h : SInv p s) (hd : s.disp = .pop ∨ s.disp = .waiting)
+    (hs : s' ∈ popOrCond s) : Pres p s s' := by
+  unfold popOrCond at hs
+  by_cases hq : queuedIds s = []
+  · simp [hq] at hs; subst hs
+    refine pres_fields h rfl rfl rfl (Nat.le_refl _) rfl ?_ (fun m hm => ?_)
+    · rintro h0 ⟨a, b, e, f⟩
+      exact ⟨a, b, rfl, by rcases hd with hd | hd <;> simpa [hd] using f⟩
+    · obtain ⟨m', hm', R⟩ := h.mon; rw [hm] at hm'; cases hm'; exact R.sdcalls
+  · simp [hq] at hs
+    obtain ⟨t, htq, rfl⟩ := hs
+    obtain ⟨r, k, ht⟩ := queued_get htq
+    have A := pres_silent (ph' := .popped) h ht rfl rfl rfl rfl rfl rfl (by simp [Phase.canc])
+    refine A.trans (pres_fields A.inv rfl rfl rfl (Nat.le_refl _) rfl ?_ (fun m hm => ?_))
+    · rintro h0 ⟨a, b, e, f⟩
+      refine ⟨a, b, rfl, ?_⟩
+      have : (setPhase s t .popped).disp = s.disp := by rw [setPhase_eq ht]
+      rw [this] at f
+      rcases hd with hd | hd <;> simpa [hd, setPhase_eq ht] using f
+    · obtain ⟨m', hm', R⟩ := A.inv.mon; rw [hm] at hm'; cases hm'; exact R.sdcalls
+
+/-- `pres_fields` for steps that do not touch `sdcalls`. -/
+theorem pres_fields' {p : Params} {s s' : St} (h : SInv p s)
+    (h1 : s'.mon = s.mon) (h2 : s'.tasks = s.tasks) (h3 : s'.pending = s.pending) (h4 : s'.sdcalls = s.sdcalls)
+    (h5 : s'.workers = s.workers)
+    (hpre : s.sdcalls = 0 →
+      (s.sig = 0 ∧ s.closed = false ∧ s.disp.early = true ∧ (s.disp ≠ .none → s.running = true)) →
+      s'.sig = 0 ∧ s'.closed = false ∧ s'.disp.early = true ∧ (s'.disp ≠ .none → s'.running = true)) : Pres p s s' := by
+  refine pres_fields h h1 h2 h3 (by omega) h5 (fun h0 => hpre (by omega)) (fun m hm => ?_)
+  obtain ⟨m', hm', R⟩ := h.mon; rw [hm] at hm'; cases hm'; rw [h4]; exact R.sdcalls
+
+theorem pres_dispStep {p : Params} {s s' : St} (h : SInv p s) (hs : s' ∈ dispStep p s) :
+    Pres p s s' ∧ s'.workers = s.workers := by
+  unfold dispStep at hs
+  cases hd : s.disp with
+  | none => simp [hd] at hs
+  | loop =>
+    simp only [hd] at hs
+    by_cases hw : s.writer = true
+    · simp [hw] at hs
+    · simp [hw] at hs; subst hs
+      refine ⟨pres_fields' h rfl rfl rfl rfl rfl ?_, rfl⟩
+      rintro h0 ⟨a, b, e, f⟩
+      have hr : s.running = true := f (by simp [hd])
+      exact ⟨a, b, by simp [hr, DPc.early], fun _ => hr⟩
+  | size =>
+    simp only [hd] at hs
+    by_cases hw : s.stackHeld = true
+    · simp [hw] at hs
+    · simp [hw] at hs; subst hs
+      refine ⟨pres_fields' h rfl rfl rfl rfl rfl ?_, rfl⟩
+      rintro h0 ⟨a, b, e, f⟩
+      simp [hd, DPc.early] at e
+  | pop =>
+    simp only [hd] at hs
+    by_cases hw : s.stackHeld = true
+    · simp [hw] at hs
+    · simp [hw] at hs
+      have := pres_popOrCond h (Or.inl hd) hs
+      refine ⟨this, ?_⟩
+      unfold popOrCond at hs
+      by_cases hq : queuedIds s = []
+      · simp [hq] at hs; subst hs; rfl
+      · simp [hq] at hs; obtain ⟨t, _, rfl⟩ := hs; simp [setPhase]; split <;> rfl
+  | cond =>
+    simp only [hd] at hs
+    by_cases hw : s.writer = true
+    · simp [hw] at hs
+    · by_cases hr : s.running = true
+      · simp [hw, hr] at hs; subst hs
+        refine ⟨pres_fields' h rfl rfl rfl rfl rfl ?_, rfl⟩
+        rintro h0 ⟨a, b, e, f⟩
+        exact ⟨a, b, rfl, fun _ => rfl⟩
+      · simp [hw, hr] at hs; subst hs
+        refine ⟨pres_fields' h rfl rfl rfl rfl rfl ?_, rfl⟩
+        rintro h0 ⟨a, b, e, f⟩
+        exact absurd (f (by simp [hd])) hr
+  | gap =>
+    simp only [hd] at hs
+    simp at hs; subst hs
+    refine ⟨pres_fields' h rfl rfl rfl rfl rfl ?_, rfl⟩
+    rintro h0 ⟨a, b, e, f⟩
+    exact ⟨a, b, rfl, fun _ => f (by simp [hd])⟩
+  | waiting =>
+    simp only [hd] at hs
+    by_cases hw : (s.dwait || s.stackHeld) = true
+    · simp [hw] at hs
+    · simp [hw] at hs
+      have := pres_popOrCond h (Or.inr hd) hs
+      refine ⟨this, ?_⟩
+      unfold popOrCond at hs
+      by_cases hq : queuedIds s = []
+      · simp [hq] at hs; subst hs; rfl
+      · simp [hq] at hs; obtain ⟨t, _, rfl⟩ := hs; simp [setPhase]; split <;> rfl
+  | send t =>
+    simp only [hd] at hs
+    by_cases hc : (chanIds s).length < p.W ∧ s.closed = false ∧ phaseOf s t = some .popped
+    · simp [hc] at hs; subst hs
+      obtain ⟨_, _, hph⟩ := hc
+      unfold phaseOf at hph
+      cases ht : s.tasks[t]? with
+      | none => simp [ht] at hph
+      | some x =>
+        obtain ⟨ph, r, k⟩ := x
+        simp [ht] at hph; subst hph
+        have A := pres_silent (ph' := .inchan) h ht rfl rfl rfl rfl rfl rfl (by simp [Phase.canc])
+        refine ⟨A.trans (pres_fields' A.inv rfl rfl rfl rfl rfl ?_), by rw [setPhase_eq ht]⟩
+        rintro h0 ⟨a, b, e, f⟩
+        refine ⟨a, b, rfl, fun _ => ?_⟩
+        have := f (by rw [setPhase_eq ht]; simp [hd])
+        simpa [setPhase_eq ht] using this
+    · simp [hc] at hs
+  | waitZero =>
+    simp only [hd] at hs
+    by_cases hz : s.pending = 0
+    · simp [hz] at hs; subst hs
+      refine ⟨pres_fields' h rfl rfl (by simp [hz]) rfl rfl ?_, rfl⟩
+      rintro h0 ⟨a, b, e, f⟩
+      simp [hd, DPc.early] at e
+    · simp [hz] at hs
+  | close =>
+    simp only [hd] at hs
+    simp at hs; subst hs
+    refine ⟨pres_fields' h rfl rfl rfl rfl rfl ?_, rfl⟩
+    rintro h0 ⟨a, b, e, f⟩
+    simp [hd, DPc.early] at e
+
+
+
+theorem countP_lin {α : Type} (l : List α) (f1 f2 f3 g1 g2 : α → Bool)
+    (h : ∀ a, b2n (f1 a) + b2n (f2 a) + b2n (f3 a) ≤ b2n (g1 a) + b2n (g2 a)) :
+    l.countP f1 + l.countP f2 + l.countP f3 ≤ l.countP g1 + l.countP g2 := by
+  induction l with
+  | nil => simp
+  | cons a as ih =>
+    have := h a
+    simp only [List.countP_cons]
+    revert this
+    cases f1 a <;> cases f2 a <;> cases f3 a <;> cases g1 a <;> cases g2 a <;> simp [b2n] <;> omega
+
+def Phase.isRan : Phase → Bool
+  | .ran => true
+  | _ => false
+def Phase.isCing : Phase → Bool
+  | .cancelling => true
+  | _ => false
+def fRan (x : Task) : Bool := x.phase.isRan
+def fCing (x : Task) : Bool := x.phase.isCing
+def fNone (_ : Task) : Bool := false
+
+theorem lin_run (s : St) : cnt fDn s + cnt fRs s + cnt fRan s ≤ cnt fRe s + cnt fUp s :=
+  countP_lin s.tasks fDn fRs fRan fRe fUp (by intro a; cases a with | mk ph r k => cases ph <;> simp [fDn, fRs, fRan, fRe, fUp, Phase.isRan, Phase.dnd, Phase.started, Phase.ended, Phase.upd])
+
+theorem lin_nocanc (s : St) : cnt fDn s + cnt fRan s + cnt fNone s ≤ cnt fRe s + cnt fCanc s :=
+  countP_lin s.tasks fDn fRan fNone fRe fCanc (by intro a; cases a with | mk ph r k => cases ph <;> simp [fDn, fRan, fRe, fCanc, fNone, Phase.isRan, Phase.dnd, Phase.ended, Phase.canc])
+
+theorem lin_canc (s : St) : cnt fDn s + cnt fRs s + cnt fCing s ≤ cnt fRe s + cnt fUp s :=
+  countP_lin s.tasks fDn fRs fCing fRe fUp (by intro a; cases a with | mk ph r k => cases ph <;> simp [fDn, fRs, fCing, fRe, fUp, Phase.isCing, Phase.dnd, Phase.started, Phase.ended, Phase.upd])
+
+theorem lin_rs_up (s : St) : cnt fRs s + cnt fNone s + cnt fNone s ≤ cnt fUp s + cnt fNone s :=
+  countP_lin s.tasks fRs fNone fNone fUp fNone (by intro a; cases a with | mk ph r k => cases ph <;> simp [fRs, fUp, fNone, Phase.started, Phase.upd])
+
+theorem cnt_fNone (s : St) : cnt fNone s = 0 := by
+  unfold cnt; induction s.tasks with
+  | nil => rfl
+  | cons a as ih => simp [List.countP_cons, fNone] at ih ⊢
+
+/-- consequences of `presd` / `nocancel` read backwards -/
+theorem SInv.sd_of_sig {p : Params} {s : St} (h : SInv p s) (hs : 0 < s.sig) : 0 < s.sdcalls := by
+  rcases Nat.eq_zero_or_pos s.sdcalls with h0 | h0
+  · have := (h.presd h0).1; omega
+  · exact h0
+theorem SInv.sd_of_closed {p : Params} {s : St} (h : SInv p s) (hs : s.closed = true) : 0 < s.sdcalls := by
+  rcases Nat.eq_zero_or_pos s.sdcalls with h0 | h0
+  · have := (h.presd h0).2.1; rw [hs] at this; cases this
+  · exact h0
+theorem SInv.sd_of_late {p : Params} {s : St} {w : WPc} (h : SInv p s) (hw : w ∈ s.workers) (hl : w.late = true) :
+    0 < s.sdcalls := by
+  rcases Nat.eq_zero_or_pos s.sdcalls with h0 | h0
+  · have := (h.presd h0).2.2.1 w hw; rw [hl] at this; cases this
+  · exact h0
+theorem SInv.sd_of_canc {p : Params} {s : St} (h : SInv p s) (hc : 0 < cnt fCanc s) : 0 < s.sdcalls ∧ p.cancel = true := by
+  constructor
+  · rcases Nat.eq_zero_or_pos s.sdcalls with h0 | h0
+    · have := (h.presd h0).2.2.2.1; omega
+    · exact h0
+  · cases hcc : p.cancel with
+    | true => rfl
+    | false => have := h.nocancel hcc; omega
+theorem SInv.not_completed {p : Params} {s : St} {w : WPc} {m : Mon} (h : SInv p s) (hm : s.mon = some m)
+    (hw : w ∈ s.workers) (he : w.isExited = false) : m.completed = false := by
+  obtain ⟨m', hm', R⟩ := h.mon
+  rw [hm] at hm'; cases hm'
+  cases hcm : m.completed with
+  | false => rfl
+  | true => have := R.completed hcm w hw; rw [he] at this; cases this
+
+
+
+theorem pres_rs {p : Params} {s : St} {t : Nat} {r : Bool} {k : List Body} (h : SInv p s)
+    (ht : s.tasks[t]? = some ⟨.inchan, r, k⟩) (hc : ∀ m, s.mon = some m → m.completed = false) :
+    Pres p s (emit p (.rs t) (setPhase s t .running)) := by
+  rw [setPhase_eq ht]
+  refine sinv_task_update (y := ⟨.running, r, k⟩) h ht rfl rfl rfl rfl rfl rfl rfl (by simp [fPend, Phase.pending]) (by simp [fCanc, Phase.canc]) ?_
+  intro m hm R
+  have hg := getT_abs R.tasks ht
+  have hlt : t < m.tasks.length := by rw [R.tasks]; simpa using lt_of_get ht
+  have hcm := hc m hm
+  have hcond : t < m.tasks.length ∧ (getT m t).decided ≠ some false ∧ (getT m t).started = false ∧ m.completed = false := by
+    rw [hg]; refine ⟨hlt, ?_, rfl, hcm⟩; cases r <;> simp [absT, Phase.isRej]
+  refine ⟨{ setT m t { getT m t with started := true } with rss := m.rss + 1 }, by simp [emit, hm, monStep, hcond], ?_⟩
+  refine ⟨?_, R.ctr, by simp [fUp, Phase.upd], by simp [fDn, Phase.dnd],
+    by simp [fRej, Phase.isRej], by simp [fRs, Phase.started], by simp [fRe, Phase.ended], rfl, rfl, rfl⟩
+  show m.tasks.set t { getT m t with started := true } = _
+  rw [hg]; cases r <;> rfl
+
+theorem pres_re {p : Params} {s : St} {t : Nat} {r : Bool} {k : List Body} (h : SInv p s)
+    (ht : s.tasks[t]? = some ⟨.running, r, k⟩) (hc : ∀ m, s.mon = some m → m.completed = false) :
+    Pres p s (emit p (.re t) (setPhase s t .ran)) := by
+  rw [setPhase_eq ht]
+  refine sinv_task_update (y := ⟨.ran, r, k⟩) h ht rfl rfl rfl rfl rfl rfl rfl (by simp [fPend, Phase.pending]) (by simp [fCanc, Phase.canc]) ?_
+  intro m hm R
+  have hg := getT_abs R.tasks ht
+  have hlt : t < m.tasks.length := by rw [R.tasks]; simpa using lt_of_get ht
+  have hcm := hc m hm
+  have hcond : t < m.tasks.length ∧ (getT m t).started = true ∧ (getT m t).ended = false ∧ m.completed = false := by
+    rw [hg]; exact ⟨hlt, rfl, rfl, hcm⟩
+  refine ⟨{ setT m t { getT m t with ended := true } with res := m.res + 1 }, by simp [emit, hm, monStep, hcond], ?_⟩
+  refine ⟨?_, R.ctr, by simp [fUp, Phase.upd], by simp [fDn, Phase.dnd],
+    by simp [fRej, Phase.isRej], by simp [fRs, Phase.started], by simp [fRe, Phase.ended], rfl, rfl, rfl⟩
+  show m.tasks.set t { getT m t with ended := true } = _
+  rw [hg]; cases r <;> rfl
+
+theorem pres_dn_run {p : Params} {s : St} {t : Nat} {r : Bool} {k : List Body} (h : SInv p s)
+    (ht : s.tasks[t]? = some ⟨.ran, r, k⟩) (hc : ∀ m, s.mon = some m → m.completed = false) :
+    Pres p s (emit p (.dn (s.pending - 1)) { setPhase s t .done with pending := s.pending - 1 }) := by
+  have hpos : 0 < s.pending := by
+    rw [h.cons]; exact countP_pos_of_get fPend s.tasks t _ ht rfl
+  have hran : 0 < cnt fRan s := countP_pos_of_get fRan s.tasks t _ ht rfl
+  rw [setPhase_eq ht]
+  refine sinv_task_update (y := ⟨.done, r, k⟩) h ht rfl rfl rfl rfl rfl rfl rfl
+    (by simp [fPend, Phase.pending]; omega) (by simp [fCanc, Phase.canc]) ?_
+  intro m hm R
+  have hcm := hc m hm
+  have hbud : m.dns < m.res + cancelBudget p.cancel m := by
+    rw [R.dns, R.res]
+    unfold cancelBudget
+    have l1 := lin_run s
+    have l2 := lin_nocanc s
+    have l3 := lin_rs_up s
+    have l0 := cnt_fNone s
+    by_cases hb : (p.cancel && decide (0 < m.sdcalls)) = true
+    · simp only [hb, if_true]; rw [R.ups, R.rss]; omega
+    · simp only [hb]
+      have hz : cnt fCanc s = 0 := by
+        rcases Nat.eq_zero_or_pos (cnt fCanc s) with hz | hz
+        · exact hz
+        · have := h.sd_of_canc hz; rw [R.sdcalls] at hb; simp [this.2, this.1] at hb
+      simp; omega
+  have hctr : s.pending - 1 + 1 = m.ctr := by rw [R.ctr]; omega
+  refine ⟨{ m with ctr := s.pending - 1, dns := m.dns + 1 }, by simp [emit, hm, monStep, hcm, hbud, hctr], ?_⟩
+  refine ⟨?_, rfl, by simp [fUp, Phase.upd], by simp [fDn, Phase.dnd],
+    by simp [fRej, Phase.isRej], by simp [fRs, Phase.started], by simp [fRe, Phase.ended], rfl, rfl, rfl⟩
+  exact (set_same _ _ _ (by rw [R.tasks]; simp [ht]; rfl)).symm
+
+theorem pres_dn_cancel {p : Params} {s : St} {t : Nat} {r : Bool} {k : List Body} (h : SInv p s)
+    (ht : s.tasks[t]? = some ⟨.cancelling, r, k⟩) (hc : ∀ m, s.mon = some m → m.completed = false) :
+    Pres p s (emit p (.dn (s.pending - 1)) { setPhase s t .cancelled with pending := s.pending - 1 }) := by
+  have hpos : 0 < s.pending := by
+    rw [h.cons]; exact countP_pos_of_get fPend s.tasks t _ ht rfl
+  have hcing : 0 < cnt fCing s := countP_pos_of_get fCing s.tasks t _ ht rfl
+  have hcanc : 0 < cnt fCanc s := countP_pos_of_get fCanc s.tasks t _ ht rfl
+  rw [setPhase_eq ht]
+  refine sinv_task_update (y := ⟨.cancelled, r, k⟩) h ht rfl rfl rfl rfl rfl rfl rfl
+    (by simp [fPend, Phase.pending]; omega) (by simp [fCanc, Phase.canc]) ?_
+  intro m hm R
+  have hcm := hc m hm
+  have hbud : m.dns < m.res + cancelBudget p.cancel m := by
+    rw [R.dns, R.res]
+    unfold cancelBudget
+    have l1 := lin_canc s
+    have l3 := lin_rs_up s
+    have l0 := cnt_fNone s
+    have := h.sd_of_canc hcanc
+    simp [this.2, R.sdcalls, this.1]; rw [R.ups, R.rss]; omega
+  have hctr : s.pending - 1 + 1 = m.ctr := by rw [R.ctr]; omega
+  refine ⟨{ m with ctr := s.pending - 1, dns := m.dns + 1 }, by simp [emit, hm, monStep, hcm, hbud, hctr], ?_⟩
+  refine ⟨?_, rfl, by simp [fUp, Phase.upd], by simp [fDn, Phase.dnd],
+    by simp [fRej, Phase.isRej], by simp [fRs, Phase.started], by simp [fRe, Phase.ended], rfl, rfl, rfl⟩
+  exact (set_same _ _ _ (by rw [R.tasks]; simp [ht]; rfl)).symm
+
+
+
+theorem pres_refl {p : Params} {s : St} (h : SInv p s) : Pres p s s :=
+  pres_fields' h rfl rfl rfl rfl rfl (fun _ x => x)
+
+theorem pres_sig_dec {p : Params} {s : St} (h : SInv p s) (hs : 0 < s.sig) :
+    Pres p s { s with sig := s.sig - 1 } :=
+  pres_fields' h rfl rfl rfl rfl rfl (fun h0 _ => by have := h.sd_of_sig hs; omega)
+
+theorem pres_takeRun {p : Params} {s : St} {t : Nat} {dr : Bool} {w : WPc} (h : SInv p s) (hw : w ∈ s.workers)
+    (he : w.isExited = false) (ht : t ∈ chanIds s) : Pres p s (takeRun p s dr t).1 := by
+  obtain ⟨r, k, ht⟩ := chan_get ht
+  exact pres_rs h ht (fun m hm => h.not_completed hm hw he)
+
+/-- The steps of a worker (`r.1` still has the old worker list). -/
+theorem pres_wStep {p : Params} {s : St} {w : WPc} {r : St × WPc} (h : SInv p s) (hw : w ∈ s.workers)
+    (hr : r ∈ wStep p s w) :
+    Pres p s r.1 ∧ r.1.workers = s.workers ∧ w.isExited = false ∧ (r.2.late = true → 0 < r.1.sdcalls) := by
+  cases w with
+  | exited => simp [wStep] at hr
+  | sel =>
+    simp only [wStep] at hr
+    by_cases hs : 0 < s.sig
+    · simp [hs] at hr; subst hr
+      exact ⟨pres_sig_dec h hs, rfl, rfl, fun _ => h.sd_of_sig hs⟩
+    · simp [hs] at hr; subst hr
+      exact ⟨pres_refl h, rfl, rfl, by simp [WPc.late]⟩
+  | sel2 =>
+    simp only [wStep, List.mem_append] at hr
+    rcases hr with (hr | hr) | hr
+    · by_cases hs : 0 < s.sig
+      · simp [hs] at hr; subst hr
+        exact ⟨pres_sig_dec h hs, rfl, rfl, fun _ => h.sd_of_sig hs⟩
+      · simp [hs] at hr
+    · simp only [List.mem_map] at hr
+      obtain ⟨t, ht, rfl⟩ := hr
+      refine ⟨pres_takeRun h hw rfl ht, ?_, rfl, by simp [takeRun, WPc.late]⟩
+      simp [takeRun, setPhase]; split <;> rfl
+    · by_cases hc : s.closed = true ∧ chanIds s = []
+      · simp [hc] at hr; subst hr
+        exact ⟨pres_refl h, rfl, rfl, fun _ => h.sd_of_closed hc.1⟩
+      · simp [hc] at hr
+  | drain =>
+    have hsd := h.sd_of_late hw rfl
+    simp only [wStep, List.mem_append] at hr
+    rcases hr with hr | hr
+    · simp only [List.mem_map] at hr
+      obtain ⟨t, ht, rfl⟩ := hr
+      by_cases hcc : p.cancel = true
+      · simp only [hcc, if_true]
+        obtain ⟨r, k, ht'⟩ := chan_get ht
+        refine ⟨pres_silent (ph' := .cancelling) h ht' rfl rfl rfl rfl rfl rfl (fun _ => Or.inr ⟨hcc, hsd⟩), ?_, rfl, ?_⟩
+        · rw [setPhase_eq ht']
+        · intro _; rw [setPhase_eq ht']; exact hsd
+      · rw [if_neg hcc]
+        refine ⟨pres_takeRun h hw rfl ht, ?_, rfl, fun _ => ?_⟩
+        · simp [takeRun, setPhase]; split <;> rfl
+        · have := (pres_takeRun (dr := true) h hw rfl ht).sdmono; omega
+    · by_cases hc : s.closed = true ∧ chanIds s = []
+      · simp [hc] at hr; subst hr
+        exact ⟨pres_refl h, rfl, rfl, fun _ => hsd⟩
+      · simp [hc] at hr
+  | run t todo sub dr =>
+    have hsd : dr = true → 0 < s.sdcalls := fun hd => h.sd_of_late hw (by simp [WPc.late, hd])
+    simp only [wStep] at hr
+    cases sub with
+    | some c =>
+      simp only [List.mem_map] at hr
+      obtain ⟨q, hq, rfl⟩ := hr
+      obtain ⟨a, b, c'⟩ := pres_submitStep h hq
+      exact ⟨a, b, rfl, fun hl => by rw [c']; exact hsd (by simpa [WPc.late] using hl)⟩
+    | none =>
+      cases todo with
+      | cons b rest =>
+        simp at hr; subst hr
+        exact ⟨pres_newTask h _, rfl, rfl, fun hl => hsd (by simpa [WPc.late] using hl)⟩
+      | nil =>
+        simp only at hr
+        by_cases hph : phaseOf s t = some .running
+        · simp [hph] at hr; subst hr
+          unfold phaseOf at hph
+          cases ht : s.tasks[t]? with
+          | none => simp [ht] at hph
+          | some x =>
+            obtain ⟨ph, r, k⟩ := x
+            simp [ht] at hph; subst hph
+            refine ⟨pres_re h ht (fun m hm => h.not_completed hm hw rfl), by rw [setPhase_eq ht]; rfl, rfl, fun hl => ?_⟩
+            rw [setPhase_eq ht]; exact hsd (by simpa [WPc.late] using hl)
+        · simp [hph] at hr
+  | mark t dr =>
+    have hsd : dr = true → 0 < s.sdcalls := fun hd => h.sd_of_late hw (by simp [WPc.late, hd])
+    simp only [wStep] at hr
+    unfold phaseOf at hr
+    cases ht : s.tasks[t]? with
+    | none => simp [ht] at hr
+    | some x =>
+      obtain ⟨ph, r, k⟩ := x
+      simp only [ht, Option.map_some] at hr
+      cases ph <;> simp at hr
+      case ran =>
+        subst hr
+        refine ⟨pres_dn_run h ht (fun m hm => h.not_completed hm hw rfl), by rw [setPhase_eq ht]; rfl, rfl, fun hl => ?_⟩
+        rw [setPhase_eq ht]
+        cases dr with
+        | true => exact hsd rfl
+        | false => simp [WPc.late] at hl
+      case cancelling =>
+        subst hr
+        have hcanc : 0 < cnt fCanc s := countP_pos_of_get fCanc s.tasks t _ ht rfl
+        refine ⟨pres_dn_cancel h ht (fun m hm => h.not_completed hm hw rfl), by rw [setPhase_eq ht]; rfl, rfl, fun _ => ?_⟩
+        rw [setPhase_eq ht]; exact (h.sd_of_canc hcanc).1
+
+
+
+theorem pres_runnerStep {p : Params} {s s' : St} (h : SInv p s) (hs : s' ∈ runnerStep p s) : Pres p s s' := by
+  unfold runnerStep at hs
+  rcases List.mem_append.mp hs with hs | hs
+  · exact (pres_dispStep h hs).1
+  · obtain ⟨i, _, hi⟩ := List.mem_flatMap.mp hs
+    cases hw : s.workers[i]? with
+    | none => simp [hw] at hi
+    | some w =>
+      simp only [hw, List.mem_map] at hi
+      obtain ⟨r, hr, rfl⟩ := hi
+      obtain ⟨a, b, c, d⟩ := pres_wStep h (List.mem_of_getElem? hw) hr
+      exact pres_set_worker a b hw c d
+
+def CPc.inStart : CPc → Bool
+  | .st0 | .stWait1 | .stLock | .stWait2 | .stUnlock => true
+  | _ => false
+
+def CPc.inSd : CPc → Bool
+  | .sd1 | .sdSend _ | .sdBcast | .sdUnlock => true
+  | _ => false
+
+/-- The steps of a client thread. -/
+theorem pres_clientStep {p : Params} {s : St} {c : Client} {r : St × Client} (h : SInv p s)
+    (hsd : c.pc.inSd = true → 0 < s.sdcalls) (hst : c.pc.inStart = true → 0 < openOf s)
+    (hr : r ∈ clientStep p s c) :
+    SInv p r.1 ∧ s.sdcalls ≤ r.1.sdcalls ∧ openOf r.1 + b2n c.pc.inStart = openOf s + b2n r.2.pc.inStart ∧
+      (r.2.pc.inSd = true → 0 < r.1.sdcalls) := by
+  obtain ⟨pc, script⟩ := c
+  obtain ⟨m, hm, R⟩ := h.mon
+  have hopen : openOf s = m.openStarts := by simp [openOf, hm]
+  have fin : ∀ {s' : St} {c' : Client}, Pres p s s' → c'.pc.inStart = pc.inStart → (c'.pc.inSd = true → pc.inSd = true) →
+      SInv p s' ∧ s.sdcalls ≤ s'.sdcalls ∧ openOf s' + b2n pc.inStart = openOf s + b2n c'.pc.inStart ∧
+        (c'.pc.inSd = true → 0 < s'.sdcalls) := by
+    intro s' c' P e1 e2
+    exact ⟨P.inv, P.sdmono, by rw [P.openEq, e1], fun x => Nat.lt_of_lt_of_le (hsd (e2 x)) P.sdmono⟩
+  cases pc
+  case idle =>
+    simp only [clientStep] at hr
+    cases script with
+    | nil => simp at hr
+    | cons op rest =>
+      cases op with
+      | submit b => simp at hr; subst hr; exact fin (pres_newTask h _) rfl (by simp [CPc.inSd])
+      | shutdown =>
+        simp at hr; subst hr
+        have I : SInv p (emit p .sdcall { s with sdcalls := s.sdcalls + 1 }) := by
+          refine sinv_mon_only (m' := { m with sdcalls := m.sdcalls + 1 }) h rfl rfl (by simp) rfl rfl rfl rfl rfl ?_
+          intro m0 hm0; rw [hm] at hm0; cases hm0
+          exact ⟨by simp [emit, hm, monStep], rfl, rfl, rfl, rfl, rfl, rfl, rfl, by simp [R.sdcalls], fun x => Or.inl x, R.openc⟩
+        refine ⟨I, by simp, ?_, fun _ => by simp⟩
+        simp [openOf, emit, hm, monStep, CPc.inStart]
+      | start =>
+        simp at hr; subst hr
+        have I : SInv p (emit p .startcall s) := by
+          refine sinv_mon_only (m' := { m with openStarts := m.openStarts + 1, completed := false }) h rfl rfl (Nat.le_refl _) rfl rfl rfl rfl rfl ?_
+          intro m0 hm0; rw [hm] at hm0; cases hm0
+          exact ⟨by simp [emit, hm, monStep], rfl, rfl, rfl, rfl, rfl, rfl, rfl, R.sdcalls, fun x => (by simp at x), fun _ => rfl⟩
+        refine ⟨I, by simp, ?_, by simp [CPc.inSd]⟩
+        simp [openOf, emit, hm, monStep, CPc.inStart, b2n]
+      | waitComplete => simp at hr; subst hr; exact fin (pres_refl h) rfl (by simp [CPc.inSd])
+      | waitZero => simp at hr; subst hr; exact fin (pres_refl h) rfl (by simp [CPc.inSd])
+  case sub t =>
+    simp only [clientStep, List.mem_map] at hr
+    obtain ⟨q, hq, rfl⟩ := hr
+    refine fin (pres_submitStep h hq).1 ?_ ?_
+    · cases q.2 <;> rfl
+    · cases q.2 <;> simp [CPc.inSd]
+  case sd1 =>
+    have hs0 := hsd rfl
+    simp only [clientStep] at hr
+    by_cases hw : s.writer = true
+    · simp [hw] at hr
+    · by_cases hrun : s.running = true
+      · simp [hw, hrun] at hr; subst hr
+        exact fin (pres_fields' h rfl rfl rfl rfl rfl (fun h0 _ => by omega)) rfl (fun _ => rfl)
+      · simp [hw, hrun] at hr; subst hr
+        exact fin (pres_fields' h rfl rfl rfl rfl rfl (fun h0 _ => by omega)) rfl (fun _ => rfl)
+  case sdSend j =>
+    have hs0 := hsd rfl
+    simp only [clientStep] at hr
+    by_cases hj : j < p.W
+    · by_cases hsg : s.sig < p.W
+      · simp [hj, hsg] at hr; subst hr
+        exact fin (pres_fields' h rfl rfl rfl rfl rfl (fun h0 _ => by omega)) rfl (fun _ => rfl)
+      · simp [hj, hsg] at hr
+    · simp [hj] at hr; subst hr
+      exact fin (pres_refl h) rfl (fun _ => rfl)
+  case sdBcast =>
+    simp only [clientStep] at hr
+    simp at hr; subst hr
+    exact fin (pres_fields' h rfl rfl rfl rfl rfl (fun _ x => x)) rfl (fun _ => rfl)
+  case sdUnlock =>
+    simp only [clientStep] at hr
+    simp at hr; subst hr
+    have I : SInv p (emit p .sdret { s with writer := false }) := by
+      refine sinv_mon_only (m' := m) h rfl rfl (Nat.le_refl _) rfl rfl rfl rfl rfl ?_
+      intro m0 hm0; rw [hm] at hm0; cases hm0
+      exact ⟨by simp [emit, hm, monStep], rfl, rfl, rfl, rfl, rfl, rfl, rfl, R.sdcalls, fun x => Or.inl x, R.openc⟩
+    refine ⟨I, by simp, ?_, by simp [CPc.inSd]⟩
+    simp [openOf, emit, hm, monStep, CPc.inStart]
+  case st0 =>
+    simp only [clientStep] at hr
+    by_cases ho : p.oldStart = true
+    · simp [ho] at hr; subst hr; exact fin (pres_refl h) rfl (by simp [CPc.inSd])
+    · by_cases hw : s.writer = true
+      · simp [ho, hw] at hr
+      · simp [ho, hw] at hr; subst hr
+        refine fin (pres_refl h) ?_ ?_ <;> cases s.running <;> simp [CPc.inSd, CPc.inStart]
+  case stWait1 =>
+    simp only [clientStep] at hr
+    by_cases hz : wg s = 0
+    · simp [hz] at hr; subst hr; exact fin (pres_refl h) rfl (by simp [CPc.inSd])
+    · simp [hz] at hr
+  case stLock =>
+    simp only [clientStep] at hr
+    by_cases hw : s.writer = true
+    · simp [hw] at hr
+    · simp [hw] at hr; subst hr
+      refine fin (pres_fields' h rfl rfl rfl rfl rfl (fun _ x => x)) ?_ ?_ <;> cases s.running <;> simp [CPc.inSd, CPc.inStart]
+  case stWait2 =>
+    simp only [clientStep] at hr
+    by_cases hz : wg s = 0
+    · simp [hz] at hr; subst hr
+      have ho := hst rfl
+      refine ⟨sinv_spawn h ho, Nat.le_refl _, ?_, by simp [CPc.inSd]⟩
+      simp [openOf, spawn, CPc.inStart]
+    · simp [hz] at hr
+  case stUnlock =>
+    simp only [clientStep] at hr
+    simp at hr; subst hr
+    have ho : 0 < m.openStarts := by rw [← hopen]; exact hst rfl
+    have I : SInv p (emit p .startret { s with writer := false }) := by
+      refine sinv_mon_only (m' := { m with openStarts := m.openStarts - 1 }) h rfl rfl (Nat.le_refl _) rfl rfl rfl rfl rfl ?_
+      intro m0 hm0; rw [hm] at hm0; cases hm0
+      exact ⟨by simp [emit, hm, monStep], rfl, rfl, rfl, rfl, rfl, rfl, rfl, R.sdcalls, fun x => Or.inl x, fun _ => R.openc ho⟩
+    refine ⟨I, by simp, ?_, by simp [CPc.inSd]⟩
+    simp [openOf, emit, hm, monStep, CPc.inStart, b2n]; omega
+  case wc =>
+    simp only [clientStep] at hr
+    by_cases hz : wg s = 0
+    · simp [hz] at hr; subst hr
+      have hall : ∀ w ∈ s.workers, w.isExited = true := by
+        intro w hw
+        cases he : w.isExited with
+        | true => rfl
+        | false =>
+          have : 0 < wg s := List.countP_pos_iff.mpr ⟨w, hw, by simp [he]⟩
+          omega
+      have I : SInv p (emit p .complete s) := by
+        refine sinv_mon_only (m' := if m.openStarts = 0 then { m with completed := true } else m) h rfl rfl (Nat.le_refl _) rfl rfl rfl rfl rfl ?_
+        intro m0 hm0; rw [hm] at hm0; cases hm0
+        refine ⟨by simp [emit, hm, monStep], ?_⟩
+        by_cases h0 : m.openStarts = 0
+        · rw [if_pos h0]
+          exact ⟨rfl, rfl, rfl, rfl, rfl, rfl, rfl, R.sdcalls, fun _ => Or.inr hall, fun x => by have x' : 0 < m.openStarts := x; omega⟩
+        · rw [if_neg h0]
+          exact ⟨rfl, rfl, rfl, rfl, rfl, rfl, rfl, R.sdcalls, fun x => Or.inl x, R.openc⟩
+      refine ⟨I, by simp, ?_, by simp [CPc.inSd]⟩
+      simp [openOf, emit, hm, monStep, CPc.inStart]
+      split <;> rfl
+    · simp [hz] at hr
+  case wz =>
+    simp only [clientStep] at hr
+    by_cases hz : s.pending = 0
+    · simp [hz] at hr; subst hr; exact fin (pres_fields' h rfl rfl (by simp [hz]) rfl rfl (fun _ x => x)) rfl (by simp [CPc.inSd])
+    · simp [hz] at hr
+
+
+
+def Thr.inStart : Thr → Bool
+  | .client c => c.pc.inStart
+  | .runner => false
+
+def Thr.inSd : Thr → Bool
+  | .client c => c.pc.inSd
+  | .runner => false
+
+/-- The invariant of whole configurations. -/
+structure GInv (p : Params) (c : Cfg St Thr) : Prop where
+  st : SInv p c.1
+  sd : ∀ t ∈ c.2, t.inSd = true → 0 < c.1.sdcalls
+  opens : openOf c.1 = c.2.countP Thr.inStart
+
+theorem sinv_init (p : Params) : SInv p St.init := by
+  refine ⟨⟨Mon.init, rfl, ?_⟩, rfl, fun _ => rfl, fun _ => ⟨rfl, rfl, ?_, rfl, rfl, fun x => absurd rfl x⟩⟩
+  · exact ⟨rfl, rfl, rfl, rfl, rfl, rfl, rfl, rfl, fun x => (by simp [Mon.init] at x), fun x => (by simp [Mon.init] at x)⟩
+  · intro w hw; simp [St.init] at hw
+
+/-- Threads that have not started anything yet (any scripts). -/
+def Thr.fresh : Thr → Bool
+  | .client c => c.pc == .idle
+  | .runner => true
+
+theorem ginv_init (p : Params) (ts : List Thr) (h : ∀ t ∈ ts, t.fresh = true) : GInv p (St.init, ts) := by
+  have hno : ∀ t ∈ ts, t.inStart = false ∧ t.inSd = false := by
+    intro t ht
+    have := h t ht
+    cases t with
+    | runner => exact ⟨rfl, rfl⟩
+    | client c =>
+      obtain ⟨pc, sc⟩ := c
+      simp [Thr.fresh] at this; subst this; exact ⟨rfl, rfl⟩
+  refine ⟨sinv_init p, ?_, ?_⟩
+  · intro t ht hs; rw [(hno t ht).2] at hs; cases hs
+  · show 0 = _
+    symm; rw [List.countP_eq_zero]
+    intro t ht; simp [(hno t ht).1]
+
+theorem ginv_step (p : Params) (a b : Cfg St Thr) (h : GInv p a) (hs : Step (sys p) a b) : GInv p b := by
+  cases hs with
+  | mk s pre t post s' t' hmem =>
+    obtain ⟨hst, hsd, hop⟩ := h
+    simp only at hst hsd hop
+    rw [countP_mid] at hop
+    cases t with
+    | runner =>
+      simp only [sys, List.mem_map] at hmem
+      obtain ⟨s'', hs'', heq⟩ := hmem
+      cases heq
+      have P := pres_runnerStep hst hs''
+      refine ⟨P.inv, ?_, ?_⟩
+      · intro u hu hus
+        exact Nat.lt_of_lt_of_le (hsd u hu hus) P.sdmono
+      · show openOf s' = _
+        rw [countP_mid, P.openEq]; exact hop
+    | client c =>
+      simp only [sys, List.mem_map] at hmem
+      obtain ⟨r, hr, heq⟩ := hmem
+      cases heq
+      have hin : Thr.client c ∈ pre ++ Thr.client c :: post := by simp
+      have hopen : c.pc.inStart = true → 0 < openOf s := by
+        intro hc; rw [hop]; simp [Thr.inStart, hc]; omega
+      obtain ⟨I, mono, eqo, sd'⟩ := pres_clientStep hst (fun x => hsd _ hin x) hopen hr
+      refine ⟨I, ?_, ?_⟩
+      · intro u hu hus
+        simp only [List.mem_append, List.mem_cons] at hu
+        rcases hu with hu | hu | hu
+        · exact Nat.lt_of_lt_of_le (hsd u (by simp [hu]) hus) mono
+        · subst hu; exact sd' hus
+        · exact Nat.lt_of_lt_of_le (hsd u (by simp [hu]) hus) mono
+      · show openOf r.1 = _
+        rw [countP_mid]
+        have hop' : openOf s = pre.countP Thr.inStart + b2n c.pc.inStart + post.countP Thr.inStart := hop
+        show openOf r.1 = pre.countP Thr.inStart + b2n r.2.pc.inStart + post.countP Thr.inStart
+        omega
+
+theorem ginv_reach (p : Params) (ts : List Thr) (h : ∀ t ∈ ts, t.fresh = true) (c : Cfg St Thr)
+    (hr : Reach (sys p) (St.init, ts) c) : GInv p c :=
+  inv_induction (GInv p) (ginv_init p ts h) (ginv_step p) hr
+
+
 end Hive.WP
